@@ -93,6 +93,14 @@ func Assert(c bool, msg string) {
 	}
 }
 
+// Symbolic reports whether the harness runs under the symbolic engine (false in native replay).
+func Symbolic() bool { return false }
+
+// Candidate states a sufficient condition for the property (e.g. "same arguments reach the codec").
+// A solver counterexample to it is only a candidate: it becomes a violation if the native replay,
+// where the property itself is asserted on real output, fails. Natively a no-op.
+func Candidate(c bool, msg string) {}
+
 // Cover marks a region that must be reachable (vacuity witness).
 func Cover(c bool, msg string) {}
 
